@@ -22,6 +22,7 @@ func main() {
 	mut := flag.String("mut", "", "unified diff (paths relative to the repo root) applied to scratch copies")
 	scratch := flag.String("scratch", "/verif/.build/mut", "")
 	extra := flag.String("merge", "", "another overlay JSON whose entries are merged in (later wins)")
+	inst := flag.String("inst", "", "directory for instrumented copies: rewrite \"sync\" imports to verifshim/vsync and every range over a map to venv.Keys")
 	flag.Parse()
 	repl := map[string]string{}
 	err := filepath.Walk(*hooks, func(p string, info os.FileInfo, err error) error {
@@ -80,6 +81,14 @@ func main() {
 				}
 			}
 		}
+	}
+	if *inst != "" {
+		n, files, err := instrument(*repo, *inst, repl)
+		if err != nil {
+			fmt.Fprintln(os.Stderr, "mkoverlay: instrument:", err)
+			os.Exit(2)
+		}
+		fmt.Printf("instrumented: %d map-range sites, %d files rewritten\n", n, files)
 	}
 	b, _ := json.MarshalIndent(map[string]any{"Replace": repl}, "", " ")
 	os.MkdirAll(filepath.Dir(*out), 0o755)
